@@ -26,6 +26,8 @@ def cases(tier):
     for v in range(8):
         cs.append(dict(name=f"mtl_v{v}", fn="mtl", args={}, prefix=[v], weight=2))
     cs.append(dict(name="graph_extended_in_place_between_calls", fn="extended", args={}, weight=2))
+    for side in ("tasks_explicit", "shared_explicit"):
+        cs.append(dict(name=f"mtl_mixed_{side}", fn="mtl_mixed", args=dict(side=side), weight=2))
     return cs
 
 
@@ -209,4 +211,56 @@ def case_mtl(sp):
     for n in p1.leaf_names():
         g1, g2 = grad_list(p1[n]), grad_list(p2[n])
         obs.append(Ob("mtl_defaulted_call_equals_explicit_call", (g1 is None and g2 is None) or (g1 is not None and g2 is not None and eq_all(g1, g2)), cex))
+    return obs
+
+
+def case_mtl_mixed(sp, side):
+    """ONE of the two parameter arguments is defaulted, the other is explicit and arbitrary (the reference set, a subset of it, or the reference set plus
+    a leaf of the OTHER kind - a tied weight): the call must behave exactly as the call in which the defaulted argument is replaced by its reference
+    set - same rejection (ValueError for an overlap), same .grad fields."""
+    set_kernels()
+    tied = choice(2, "task0_reads_a_shared_leaf_directly")  # then the default sets overlap already
+    leaves = [("p0", (2,), True), ("p1", (), True), ("q0", (2,), True), ("q1", (), True)]
+    ops = [dict(name="trunk", inputs=["p0", "p1"], outs=[("f", (2,))], deps={(0, 0), (0, 1)}),
+           dict(name="head0", inputs=["f", "q0"] + (["p1"] if tied else []), outs=[("loss0", ())], deps={(0, i) for i in range(3 if tied else 2)}),
+           dict(name="head1", inputs=["f", "q1"], outs=[("loss1", ())], deps={(0, 0), (0, 1)})]
+    spec = dict(leaves=leaves, ops=ops)
+    losses, feats = ["loss0", "loss1"], ["f"]
+    ref_shared = sorted(reference_leaves(spec, feats))
+    ref_tasks = [sorted(reference_leaves(spec, [l], excluded=feats)) for l in losses]
+    w = [named(f"w{r}") for r in range(2)]
+    if side == "tasks_explicit":
+        extra = [None, "p0", "p1"][choice(3, "shared_leaf_also_listed_in_a_task")]
+        k = choice(2, "in_task")
+        drop = choice(2, "task_list_is_partial")
+        explicit = [list(t) for t in ref_tasks]
+        if drop:
+            explicit[1 - k] = []
+        if extra is not None and extra not in explicit[k]:
+            explicit[k] = explicit[k] + [extra]
+        kw_a = lambda p: dict(tasks_params=[[p[n] for n in t] for t in explicit])
+        kw_b = lambda p: dict(tasks_params=[[p[n] for n in t] for t in explicit], shared_params=[p[n] for n in ref_shared])
+    else:
+        extra = [None, "q0", "q1"][choice(3, "task_leaf_also_listed_as_shared")]
+        drop = choice(2, "shared_list_is_partial")
+        explicit = [n for n in ref_shared if not (drop and n == "p0")] + ([extra] if extra else [])
+        kw_a = lambda p: dict(shared_params=[p[n] for n in explicit])
+        kw_b = lambda p: dict(shared_params=[p[n] for n in explicit], tasks_params=[[p[n] for n in t] for t in ref_tasks])
+    pa, pb = Prog(spec), Prog(spec)
+    def cex(model=None):
+        return dict(kind="mixed_defaults", spec=spec_json(spec), losses=losses, features=feats, side=side, explicit=explicit,
+                    jac={} if model is None else jac_values(model, pa), w=None if model is None else cex_values(model, w=w)["w"])
+    def run(p, kw):
+        try:
+            mtl_backward([p[l] for l in losses], [p[f] for f in feats], Constant(T(w)), **kw)
+            return "ok"
+        except ValueError:
+            return "ValueError"
+        except RuntimeError:
+            return "RuntimeError"
+    ra, rb = run(pa, kw_a(pa)), run(pb, kw_b(pb))
+    obs = [Ob("half_defaulted_call_rejected_iff_its_explicit_twin_is", ra == rb, cex)]
+    for n in pa.leaf_names():
+        ga, gb = grad_list(pa[n]), grad_list(pb[n])
+        obs.append(Ob("half_defaulted_call_equals_its_explicit_twin", (ga is None and gb is None) or (ga is not None and gb is not None and eq_all(ga, gb)), cex))
     return obs
